@@ -264,3 +264,485 @@ Proof.
   - cbn [PT]. apply (tstep_total (PT (S f)) f (S f) ts); [apply PT_shrinks| |lia|lia].
     intros ts0 L0. apply IH. exact L0.
 Qed.
+
+(* ---------- acceptance: every token list that spells a type is parsed to a type of that shape ---------- *)
+(* a type without its positions *)
+Inductive sty :=
+| SSimple (name : bytes)
+| SNamed (names : list bytes)
+| SArray (item : sty)
+| SStruct (fields : list (option bytes * sty)).
+
+Fixpoint shape (t : ty) : sty :=
+  match t with
+  | TSimple _ n => SSimple n
+  | TNamed ids => SNamed (map id_name ids)
+  | TArray _ _ it => SArray (shape it)
+  | TStruct _ _ fs =>
+      SStruct ((fix go (l : list (option ident * ty)) : list (option bytes * sty) :=
+                  match l with [] => [] | (oi, x) :: r => (option_map id_name oi, shape x) :: go r end) fs)
+  end.
+Definition shape_field (f : option ident * ty) : option bytes * sty := (option_map id_name (fst f), shape (snd f)).
+
+Lemma shape_struct a b fs : shape (TStruct a b fs) = SStruct (map shape_field fs).
+Proof.
+  cbn [shape]. f_equal. induction fs as [|[oi x] r IH]; [reflexivity|]. cbn [map]. rewrite <- IH. reflexivity.
+Qed.
+
+(* the spelling relation, on token lists in which every closing bracket is a token of its own (see [unfuse] below for ">>");
+   [Sp s ts K]: ts consists of the tokens of a type of shape s followed by K.  Tokens are constrained in kind and, for names, in
+   value; their positions are arbitrary. *)
+Inductive SpPath : list bytes -> toks -> toks -> Prop :=
+| SpP0 K : SpPath [] K K
+| SpPCons d i ts K ns : kis d "." = true -> kis i K_ident = true -> SpPath ns ts K -> SpPath (pstr i :: ns) (d :: i :: ts) K.
+
+Inductive Sp : sty -> toks -> toks -> Prop :=
+| SpSimple t K nm : kis t K_ident = true -> simple_name t = Some nm -> Sp (SSimple nm) (t :: K) K
+| SpNamed t ts K ns : kis t K_ident = true -> simple_name t = None -> SpPath ns ts K -> kis (cur K) "." = false ->
+                      Sp (SNamed (pstr t :: ns)) (t :: ts) K
+| SpArray a lt ts g K it : kis a "ARRAY" = true -> kis lt "<" = true -> Sp it ts (g :: K) -> kis g ">" = true ->
+                           Sp (SArray it) (a :: lt :: ts) K
+| SpStruct0 s e K : kis s "STRUCT" = true -> kis e "<>" = true -> Sp (SStruct []) (s :: e :: K) K
+| SpStruct1 s lt g K : kis s "STRUCT" = true -> kis lt "<" = true -> kis g ">" = true -> Sp (SStruct []) (s :: lt :: g :: K) K
+| SpStructN s lt ts ts1 g K f fs : kis s "STRUCT" = true -> kis lt "<" = true -> SpField f ts ts1 -> SpMore fs ts1 (g :: K) -> kis g ">" = true ->
+                                   Sp (SStruct (f :: fs)) (s :: lt :: ts) K
+with SpField : option bytes * sty -> toks -> toks -> Prop :=
+| SpFNamed n ts K s : kis n K_ident = true -> type_start (cur ts) = true -> Sp s ts K -> SpField (Some (pstr n), s) (n :: ts) K
+| SpFAnon ts K s : Sp s ts K -> kis (cur ts) K_ident && type_start (cur (next ts)) = false -> SpField (None, s) ts K
+with SpMore : list (option bytes * sty) -> toks -> toks -> Prop :=
+| SpM0 K : SpMore [] K K
+| SpMCons c ts ts1 K f fs : kis c "," = true -> SpField f ts ts1 -> SpMore fs ts1 K -> SpMore (f :: fs) (c :: ts) K.
+
+Scheme Sp_mind := Minimality for Sp Sort Prop
+  with SpField_mind := Minimality for SpField Sort Prop
+  with SpMore_mind := Minimality for SpMore Sort Prop.
+Combined Scheme Sp_mutind from Sp_mind, SpField_mind, SpMore_mind.
+
+Lemma next_cons t K : K <> [] -> next (t :: K) = K.
+Proof. destruct K; [congruence|reflexivity]. Qed.
+
+Lemma SpPath_nonempty ns ts K : SpPath ns ts K -> K <> [] -> ts <> [].
+Proof. intros H NE. destruct H; [exact NE|discriminate]. Qed.
+
+Lemma Sp_nonempty :
+  (forall s ts K, Sp s ts K -> ts <> []) /\ (forall f ts K, SpField f ts K -> K <> [] -> ts <> []) /\ (forall fs ts K, SpMore fs ts K -> K <> [] -> ts <> []).
+Proof.
+  apply Sp_mutind; intros; try discriminate; auto.
+Qed.
+
+(* the loop of parseIdentOrPath over a spelled path *)
+Lemma path_more_spell : forall ns ts K, SpPath ns ts K -> K <> [] -> kis (cur K) "." = false ->
+  forall n acc, length ns < n -> exists ids, path_more n acc ts = Ok ((acc ++ ids)%list, K) /\ map id_name ids = ns.
+Proof.
+  induction 1 as [K|d i ts K ns Hd Hi H IH]; intros NE ND n acc L.
+  - destruct n as [|n]; [lia|]. exists []. cbn [path_more]. rewrite ND, app_nil_r. split; reflexivity.
+  - destruct n as [|n]; [cbn in L; lia|]. cbn [length] in L.
+    destruct (IH NE ND n (acc ++ [mk_ident i])%list ltac:(lia)) as (ids & E & M).
+    exists (mk_ident i :: ids). cbn [path_more cur]. rewrite Hd.
+    assert (N1 : ts <> []) by (eapply SpPath_nonempty; eauto).
+    rewrite (next_cons d) by discriminate. unfold parse_ident, expect. cbn [cur]. rewrite Hi. cbn [bind].
+    rewrite (next_cons i _ N1). rewrite E. rewrite <- app_assoc. split; [reflexivity|]. cbn [map]. rewrite M. reflexivity.
+Qed.
+
+Lemma kd t k k' : kis t k = true -> bytes_eqb (bs k) (bs k') = false -> kis t k' = false.
+Proof. intros H D. eapply kis_diff; eauto. Qed.
+
+Lemma type_start_ident t : kis t K_ident = true -> type_start t = true.
+Proof. unfold type_start. intros ->. reflexivity. Qed.
+Lemma type_start_array t : kis t "ARRAY" = true -> type_start t = true.
+Proof. unfold type_start. intros ->. rewrite orb_true_r. reflexivity. Qed.
+Lemma type_start_struct t : kis t "STRUCT" = true -> type_start t = true.
+Proof. unfold type_start. intros ->. rewrite orb_true_r. reflexivity. Qed.
+
+Lemma Sp_start :
+  (forall s ts K, Sp s ts K -> type_start (cur ts) = true) /\ (forall f ts K, SpField f ts K -> type_start (cur ts) = true) /\
+  (forall fs ts K, SpMore fs ts K -> True).
+Proof.
+  apply Sp_mutind; intros; cbn [cur]; auto using type_start_ident, type_start_array, type_start_struct.
+Qed.
+
+Lemma type_start_not_gt t : type_start t = true -> kis t ">" || kis t ">>" = false.
+Proof.
+  unfold type_start. intros H. apply orb_true_iff in H as [H|H]; [apply orb_true_iff in H as [H|H]|];
+    rewrite (kd _ _ ">" H eq_refl), (kd _ _ ">>" H eq_refl); reflexivity.
+Qed.
+
+Lemma close_angle_gt g K : kis g ">" = true -> K <> [] -> close_angle (g :: K) = Ok (ppos g, K).
+Proof.
+  intros G NE. unfold close_angle, expect. cbn [cur]. rewrite (kd _ _ ">>" G eq_refl), G. cbn [bind]. rewrite (next_cons _ _ NE). reflexivity.
+Qed.
+
+(* one call of parseType on each spelled form *)
+Lemma tstep_simple pt n t K nm : kis t K_ident = true -> simple_name t = Some nm -> K <> [] ->
+  tstep pt n (t :: K) = Ok (TSimple (ppos t) nm, K).
+Proof. intros A B NE. unfold tstep. cbn [cur]. rewrite A, B, (next_cons _ _ NE). reflexivity. Qed.
+
+Lemma tstep_named pt n t ts ids K : kis t K_ident = true -> simple_name t = None -> ts <> [] ->
+  path_more n [mk_ident t] ts = Ok (ids, K) -> tstep pt n (t :: ts) = Ok (TNamed ids, K).
+Proof. intros A B NE H. unfold tstep. cbn [cur]. rewrite A, B, (next_cons _ _ NE), H. reflexivity. Qed.
+
+Lemma tstep_array pt n a lt ts it g K : kis a "ARRAY" = true -> kis lt "<" = true -> ts <> [] -> K <> [] ->
+  pt ts = Ok (it, g :: K) -> kis g ">" = true -> tstep pt n (a :: lt :: ts) = Ok (TArray (ppos a) (ppos g) it, K).
+Proof.
+  intros A B N1 N2 H G. unfold tstep. cbn [cur]. rewrite (kd _ _ K_ident A eq_refl), A.
+  rewrite (next_cons a) by discriminate. unfold expect. cbn [cur]. rewrite B. cbn [bind]. rewrite (next_cons _ _ N1), H. cbn [bind].
+  rewrite (close_angle_gt g K G N2). reflexivity.
+Qed.
+
+Lemma tstep_struct0 pt n s e K : kis s "STRUCT" = true -> kis e "<>" = true -> K <> [] ->
+  tstep pt n (s :: e :: K) = Ok (TStruct (ppos s) (ppos e + 1) [], K).
+Proof.
+  intros A B NE. unfold tstep. cbn [cur]. rewrite (kd _ _ K_ident A eq_refl), (kd _ _ "ARRAY" A eq_refl), A.
+  rewrite (next_cons s) by discriminate. cbn [cur]. rewrite B, (next_cons _ _ NE). reflexivity.
+Qed.
+
+Lemma tstep_struct1 pt n s lt g K : kis s "STRUCT" = true -> kis lt "<" = true -> kis g ">" = true -> K <> [] ->
+  tstep pt n (s :: lt :: g :: K) = Ok (TStruct (ppos s) (ppos g) [], K).
+Proof.
+  intros A B G NE. unfold tstep. cbn [cur]. rewrite (kd _ _ K_ident A eq_refl), (kd _ _ "ARRAY" A eq_refl), A.
+  rewrite (next_cons s) by discriminate. cbn [cur]. rewrite (kd _ _ "<>" B eq_refl), B. cbn [negb].
+  rewrite (next_cons lt) by discriminate. cbn [cur]. rewrite G. cbn [orb bind]. rewrite (close_angle_gt g K G NE). reflexivity.
+Qed.
+
+Lemma tstep_structn pt n s lt ts f1 ts1 fs g K : kis s "STRUCT" = true -> kis lt "<" = true -> ts <> [] -> K <> [] ->
+  type_start (cur ts) = true -> pfield pt ts = Ok (f1, ts1) -> fields_more pt n [f1] ts1 = Ok (fs, g :: K) -> kis g ">" = true ->
+  tstep pt n (s :: lt :: ts) = Ok (TStruct (ppos s) (ppos g) fs, K).
+Proof.
+  intros A B N1 N2 TS H1 H2 G. unfold tstep. cbn [cur]. rewrite (kd _ _ K_ident A eq_refl), (kd _ _ "ARRAY" A eq_refl), A.
+  rewrite (next_cons s) by discriminate. cbn [cur]. rewrite (kd _ _ "<>" B eq_refl), B. cbn [negb].
+  rewrite (next_cons _ _ N1). rewrite (type_start_not_gt _ TS). rewrite H1. cbn [bind]. rewrite H2. cbn [bind].
+  rewrite (close_angle_gt g K G N2). reflexivity.
+Qed.
+
+Definition Acc_ty (s : sty) (ts K : toks) : Prop :=
+  K <> [] -> exists f0, forall f, f0 <= f -> exists t, PT f ts = Ok (t, K) /\ shape t = s.
+Definition Acc_field (fl : option bytes * sty) (ts K : toks) : Prop :=
+  K <> [] -> exists f0, forall f, f0 <= f -> exists x, pfield (PT f) ts = Ok (x, K) /\ shape_field x = fl.
+Definition Acc_more (fs : list (option bytes * sty)) (ts K : toks) : Prop :=
+  K <> [] -> kis (cur K) "," = false ->
+  exists f0, forall f n acc, f0 <= f -> length fs < n -> exists xs, fields_more (PT f) n acc ts = Ok ((acc ++ xs)%list, K) /\ map shape_field xs = fs.
+
+Theorem spelled_types_parse :
+  (forall s ts K, Sp s ts K -> Acc_ty s ts K) /\ (forall f ts K, SpField f ts K -> Acc_field f ts K) /\ (forall fs ts K, SpMore fs ts K -> Acc_more fs ts K).
+Proof.
+  apply Sp_mutind.
+  - (* simple type *)
+    intros t K nm A B NE. exists 1. intros f L. destruct f as [|f]; [lia|]. exists (TSimple (ppos t) nm). cbn [PT].
+    rewrite (tstep_simple _ _ t K nm A B NE). split; reflexivity.
+  - (* named type *)
+    intros t ts K ns A B HP ND NE. exists (length ns + 2). intros f L. destruct f as [|f]; [lia|].
+    destruct (path_more_spell ns ts K HP NE ND f [mk_ident t] ltac:(lia)) as (ids & E & M).
+    exists (TNamed ([mk_ident t] ++ ids)). cbn [PT]. rewrite (tstep_named _ _ t ts _ K A B (SpPath_nonempty _ _ _ HP NE) E).
+    split; [reflexivity|]. cbn [shape app map]. rewrite M. reflexivity.
+  - (* ARRAY< item > *)
+    intros a lt ts g K it A B HS IH G NE. destruct (IH ltac:(discriminate)) as [f0 H0]. exists (S f0). intros f L. destruct f as [|f]; [lia|].
+    destruct (H0 f ltac:(lia)) as (t & E & Sh). exists (TArray (ppos a) (ppos g) t). cbn [PT].
+    rewrite (tstep_array _ _ a lt ts t g K A B (proj1 Sp_nonempty _ _ _ HS) NE E G). split; [reflexivity|]. cbn [shape]. rewrite Sh. reflexivity.
+  - (* STRUCT<> *)
+    intros s e K A B NE. exists 1. intros f L. destruct f as [|f]; [lia|]. eexists. cbn [PT]. rewrite (tstep_struct0 _ _ s e K A B NE). split; reflexivity.
+  - (* STRUCT< > *)
+    intros s lt g K A B G NE. exists 1. intros f L. destruct f as [|f]; [lia|]. eexists. cbn [PT]. rewrite (tstep_struct1 _ _ s lt g K A B G NE). split; reflexivity.
+  - (* STRUCT< f1, ... > *)
+    intros s lt ts ts1 g K f1 fs A B HF IHF HM IHM G NE.
+    assert (N1 : ts1 <> []) by (apply (proj2 (proj2 Sp_nonempty) _ _ _ HM); discriminate).
+    assert (N0 : ts <> []) by (apply (proj1 (proj2 Sp_nonempty) _ _ _ HF N1)).
+    destruct (IHF N1) as [fa Ha]. destruct (IHM ltac:(discriminate) (kis_diff g ">" "," eq_refl G)) as [fb Hb].
+    exists (S (S (fa + fb + length fs))). intros f L. destruct f as [|f]; [lia|].
+    destruct (Ha f ltac:(lia)) as (x & E1 & S1). destruct (Hb f f [x] ltac:(lia) ltac:(lia)) as (xs & E2 & S2).
+    exists (TStruct (ppos s) (ppos g) ([x] ++ xs)). cbn [PT].
+    rewrite (tstep_structn _ _ s lt ts x ts1 _ g K A B N0 NE (proj1 (proj2 Sp_start) _ _ _ HF) E1 E2 G).
+    split; [reflexivity|]. rewrite shape_struct. cbn [app map]. rewrite S1, S2. reflexivity.
+  - (* field with a name *)
+    intros n ts K s A TS HS IH NE. destruct (IH NE) as [f0 H0]. exists f0. intros f L. destruct (H0 f L) as (t & E & Sh).
+    exists (Some (mk_ident n), t). unfold pfield. cbn [cur]. rewrite A. rewrite (next_cons _ _ (proj1 Sp_nonempty _ _ _ HS)), TS. cbn [andb].
+    rewrite E. cbn [bind]. split; [reflexivity|]. unfold shape_field. cbn [fst snd option_map]. rewrite Sh. reflexivity.
+  - (* field without a name *)
+    intros ts K s HS IH C NE. destruct (IH NE) as [f0 H0]. exists f0. intros f L. destruct (H0 f L) as (t & E & Sh).
+    exists (None, t). unfold pfield. rewrite C, E. cbn [bind]. split; [reflexivity|]. unfold shape_field. cbn [fst snd option_map]. rewrite Sh. reflexivity.
+  - (* no further field *)
+    intros K NE NC. exists 0. intros f n acc _ L. destruct n as [|n]; [cbn in L; lia|]. exists []. cbn [fields_more]. rewrite NC, app_nil_r. split; reflexivity.
+  - (* , field ... *)
+    intros c ts ts1 K f1 fs C HF IHF HM IHM NE NC.
+    assert (N1 : ts1 <> []) by (apply (proj2 (proj2 Sp_nonempty) _ _ _ HM NE)).
+    assert (N0 : ts <> []) by (apply (proj1 (proj2 Sp_nonempty) _ _ _ HF N1)).
+    destruct (IHF N1) as [fa Ha]. destruct (IHM NE NC) as [fb Hb]. exists (fa + fb). intros f n acc L Ln.
+    destruct n as [|n]; [cbn in Ln; lia|]. cbn [length] in Ln.
+    destruct (Ha f ltac:(lia)) as (x & E1 & S1). destruct (Hb f n (acc ++ [x])%list ltac:(lia) ltac:(lia)) as (xs & E2 & S2).
+    exists (x :: xs). cbn [fields_more cur]. rewrite C, (next_cons _ _ N0), E1. cbn [bind]. rewrite E2, <- app_assoc.
+    split; [reflexivity|]. cbn [map]. rewrite S1, S2. reflexivity.
+Qed.
+
+(* ---------- ">>" is two closing brackets: the parser gives the same answer on the token list in which every ">>" is replaced by
+   two ">" tokens (at the byte positions of its two halves) ---------- *)
+Definition first_half (t : ptok) : ptok := {| pk := bs ">"; praw := bs ">"; pstr := pstr t; ppos := ppos t; pend := pend t; pbase := pbase t |}.
+
+Fixpoint unfuse (ts : toks) : toks :=
+  match ts with
+  | [] => []
+  | t :: r => if kis t ">>" then first_half t :: half_gt t :: unfuse r else t :: unfuse r
+  end.
+
+Definition rmapU {A} (r : res (A * toks)) : res (A * toks) :=
+  match r with Ok (a, ts) => Ok (a, unfuse ts) | Err p => Err p | Unsup => Unsup | Fuel => Fuel end.
+
+Lemma unfuse_nonempty ts : ts <> [] -> unfuse ts <> [].
+Proof. destruct ts as [|t r]; [congruence|]. intros _. cbn [unfuse]. destruct (kis t ">>"); discriminate. Qed.
+
+Lemma cur_unfuse_other ts : kis (cur ts) ">>" = false -> cur (unfuse ts) = cur ts.
+Proof. destruct ts as [|t r]; [reflexivity|]. cbn [cur unfuse]. intros ->. reflexivity. Qed.
+
+Lemma cur_unfuse_gtgt ts : kis (cur ts) ">>" = true -> cur (unfuse ts) = first_half (cur ts).
+Proof. destruct ts as [|t r]; [cbn; discriminate|]. cbn [cur unfuse]. intros ->. reflexivity. Qed.
+
+Lemma next_unfuse ts : kis (cur ts) ">>" = false -> next (unfuse ts) = unfuse (next ts).
+Proof.
+  destruct ts as [|t [|u r]]; [reflexivity| |]; cbn [cur]; intros H.
+  - change (next [t]) with [t]. cbn [unfuse]. rewrite H. reflexivity.
+  - change (next (t :: u :: r)) with (u :: r). cbn [unfuse]. rewrite H.
+    apply next_cons. change (unfuse (u :: r) <> []). apply unfuse_nonempty. discriminate.
+Qed.
+
+Lemma ppos_cur_unfuse ts : ppos (cur (unfuse ts)) = ppos (cur ts).
+Proof.
+  destruct (kis (cur ts) ">>") eqn:G; [rewrite (cur_unfuse_gtgt _ G); reflexivity|rewrite (cur_unfuse_other _ G); reflexivity].
+Qed.
+
+(* a kind other than ">" and ">>" is tested with the same result *)
+Lemma kis_cur_unfuse ts k : bytes_eqb (bs ">") (bs k) = false -> bytes_eqb (bs ">>") (bs k) = false -> kis (cur (unfuse ts)) k = kis (cur ts) k.
+Proof.
+  intros D1 D2. destruct (kis (cur ts) ">>") eqn:G; [|rewrite (cur_unfuse_other _ G); reflexivity].
+  rewrite (cur_unfuse_gtgt _ G). rewrite (kd _ _ k G D2). unfold kis, first_half. cbn [pk]. exact D1.
+Qed.
+
+Lemma gt_cur_unfuse ts : kis (cur (unfuse ts)) ">" || kis (cur (unfuse ts)) ">>" = kis (cur ts) ">" || kis (cur ts) ">>".
+Proof.
+  destruct (kis (cur ts) ">>") eqn:G; [|rewrite (cur_unfuse_other _ G), G; reflexivity].
+  rewrite (cur_unfuse_gtgt _ G). rewrite orb_true_r. reflexivity.
+Qed.
+
+Lemma type_start_cur_unfuse ts : type_start (cur (unfuse ts)) = type_start (cur ts).
+Proof. unfold type_start. rewrite !kis_cur_unfuse by reflexivity. reflexivity. Qed.
+
+Lemma not_gtgt_of ts k : bytes_eqb (bs k) (bs ">>") = false -> kis (cur ts) k = true -> kis (cur ts) ">>" = false.
+Proof. intros D H. exact (kd _ _ _ H D). Qed.
+
+Lemma expect_unfuse k ts : bytes_eqb (bs ">") (bs k) = false -> bytes_eqb (bs ">>") (bs k) = false ->
+  expect k (unfuse ts) = rmapU (expect k ts).
+Proof.
+  intros D1 D2. unfold expect. rewrite (kis_cur_unfuse ts k D1 D2), ppos_cur_unfuse.
+  destruct (kis (cur ts) k) eqn:K; [|reflexivity]. cbn [rmapU].
+  assert (G : kis (cur ts) ">>" = false).
+  { destruct (kis (cur ts) ">>") eqn:G; [|reflexivity]. rewrite (kd _ _ k G D2) in K. discriminate. }
+  rewrite (cur_unfuse_other _ G), (next_unfuse _ G). reflexivity.
+Qed.
+
+Lemma close_angle_unfuse ts : close_angle (unfuse ts) = rmapU (close_angle ts).
+Proof.
+  unfold close_angle. destruct (kis (cur ts) ">>") eqn:G.
+  - destruct ts as [|t r]; [cbn in G; discriminate|]. cbn [cur] in G. cbn [unfuse cur set_cur rmapU]. rewrite G. cbn [cur].
+    change (kis (first_half t) ">>") with false. cbv iota. unfold expect. cbn [cur]. change (kis (first_half t) ">") with true. cbv iota. cbn [bind].
+    rewrite next_cons by discriminate. change (kis (half_gt t) ">>") with false. cbv iota. reflexivity.
+  - rewrite (cur_unfuse_other _ G), G. unfold expect. rewrite (cur_unfuse_other _ G).
+    destruct (kis (cur ts) ">"); cbn [bind rmapU]; [|reflexivity]. rewrite (next_unfuse _ G). reflexivity.
+Qed.
+
+Lemma parse_ident_unfuse ts : parse_ident (unfuse ts) = rmapU (parse_ident ts).
+Proof.
+  unfold parse_ident. rewrite (expect_unfuse K_ident ts eq_refl eq_refl).
+  destruct (expect K_ident ts) as [[t r]| | |]; reflexivity.
+Qed.
+
+Lemma path_more_unfuse : forall n acc ts, path_more n acc (unfuse ts) = rmapU (path_more n acc ts).
+Proof.
+  induction n as [|n IH]; intros acc ts; [reflexivity|]. cbn [path_more].
+  rewrite (kis_cur_unfuse ts "." eq_refl eq_refl). destruct (kis (cur ts) ".") eqn:D; [|reflexivity].
+  rewrite (next_unfuse _ (not_gtgt_of ts "." eq_refl D)), parse_ident_unfuse.
+  destruct (parse_ident (next ts)) as [[i r]| | |]; cbn [bind rmapU]; try reflexivity. apply IH.
+Qed.
+
+Definition commutes (pt : toks -> res (ty * toks)) : Prop := forall ts, pt (unfuse ts) = rmapU (pt ts).
+
+Lemma pfield_unfuse pt ts : commutes pt -> pfield pt (unfuse ts) = rmapU (pfield pt ts).
+Proof.
+  intros C. unfold pfield. rewrite (kis_cur_unfuse ts K_ident eq_refl eq_refl).
+  destruct (kis (cur ts) K_ident) eqn:KI; cbn [andb].
+  - pose proof (not_gtgt_of ts K_ident eq_refl KI) as G. rewrite (next_unfuse _ G), type_start_cur_unfuse, (cur_unfuse_other _ G).
+    destruct (type_start (cur (next ts))).
+    + rewrite C. destruct (pt (next ts)) as [[t r]| | |]; reflexivity.
+    + rewrite C. destruct (pt ts) as [[t r]| | |]; reflexivity.
+  - rewrite C. destruct (pt ts) as [[t r]| | |]; reflexivity.
+Qed.
+
+Lemma fields_more_unfuse pt : commutes pt -> forall n acc ts, fields_more pt n acc (unfuse ts) = rmapU (fields_more pt n acc ts).
+Proof.
+  intros C. induction n as [|n IH]; intros acc ts; [reflexivity|]. cbn [fields_more].
+  rewrite (kis_cur_unfuse ts "," eq_refl eq_refl). destruct (kis (cur ts) ",") eqn:D; [|reflexivity].
+  rewrite (next_unfuse _ (not_gtgt_of ts "," eq_refl D)), (pfield_unfuse pt _ C).
+  destruct (pfield pt (next ts)) as [[fl r]| | |]; cbn [bind rmapU]; try reflexivity. apply IH.
+Qed.
+
+Lemma tstep_unfuse pt n : commutes pt -> commutes (tstep pt n).
+Proof.
+  intros C ts. unfold tstep. rewrite ppos_cur_unfuse.
+  rewrite (kis_cur_unfuse ts K_ident eq_refl eq_refl), (kis_cur_unfuse ts "ARRAY" eq_refl eq_refl), (kis_cur_unfuse ts "STRUCT" eq_refl eq_refl).
+  destruct (kis (cur ts) K_ident) eqn:KI.
+  { pose proof (not_gtgt_of ts K_ident eq_refl KI) as G. rewrite (cur_unfuse_other _ G), (next_unfuse _ G).
+    destruct (simple_name (cur ts)); [reflexivity|]. rewrite path_more_unfuse.
+    destruct (path_more n [mk_ident (cur ts)] (next ts)) as [[ids r]| | |]; reflexivity. }
+  destruct (kis (cur ts) "ARRAY") eqn:KA.
+  { pose proof (not_gtgt_of ts "ARRAY" eq_refl KA) as G. rewrite (next_unfuse _ G), (expect_unfuse "<" _ eq_refl eq_refl).
+    destruct (expect "<" (next ts)) as [[x ts1]| | |]; cbn [bind rmapU]; try reflexivity.
+    rewrite C. destruct (pt ts1) as [[it ts2]| | |]; cbn [bind rmapU]; try reflexivity.
+    rewrite close_angle_unfuse. destruct (close_angle ts2) as [[g ts3]| | |]; reflexivity. }
+  destruct (kis (cur ts) "STRUCT") eqn:KS; [|reflexivity].
+  pose proof (not_gtgt_of ts "STRUCT" eq_refl KS) as G. rewrite (next_unfuse _ G).
+  rewrite (kis_cur_unfuse (next ts) "<>" eq_refl eq_refl), (kis_cur_unfuse (next ts) "<" eq_refl eq_refl), ppos_cur_unfuse.
+  destruct (kis (cur (next ts)) "<>") eqn:KE.
+  { rewrite (next_unfuse _ (not_gtgt_of (next ts) "<>" eq_refl KE)). reflexivity. }
+  destruct (kis (cur (next ts)) "<") eqn:KL; cbn [negb]; [|reflexivity].
+  rewrite (next_unfuse _ (not_gtgt_of (next ts) "<" eq_refl KL)), gt_cur_unfuse.
+  destruct (kis (cur (next (next ts))) ">" || kis (cur (next (next ts))) ">>").
+  - cbn [bind]. rewrite close_angle_unfuse. destruct (close_angle (next (next ts))) as [[g ts4]| | |]; reflexivity.
+  - rewrite (pfield_unfuse pt _ C). destruct (pfield pt (next (next ts))) as [[f1 ts3]| | |]; cbn [bind rmapU]; try reflexivity.
+    rewrite (fields_more_unfuse pt C). destruct (fields_more pt n [f1] ts3) as [[fs ts4]| | |]; cbn [bind rmapU]; try reflexivity.
+    rewrite close_angle_unfuse. destruct (close_angle ts4) as [[g ts5]| | |]; reflexivity.
+Qed.
+
+Theorem PT_unfuse : forall f ts, PT f (unfuse ts) = rmapU (PT f ts).
+Proof.
+  induction f as [|f IH]; intros ts; [reflexivity|]. cbn [PT]. apply tstep_unfuse. exact IH.
+Qed.
+
+(* ---------- soundness: whatever is accepted is a spelling of its result ---------- *)
+Definition plain (ts : toks) : Prop := Forall (fun t => kis t ">>" = false) ts.
+Definition last_eof (ts : toks) : Prop := exists pre e, ts = (pre ++ [e])%list /\ kis e K_eof = true.
+
+Lemma plain_next ts : plain ts -> plain (next ts).
+Proof. destruct ts as [|t [|u r]]; cbn; auto. intros H. inversion H; auto. Qed.
+
+Lemma plain_cur ts : plain ts -> kis (cur ts) ">>" = false.
+Proof. destruct ts as [|t r]; [reflexivity|]. intros H. inversion H; auto. Qed.
+
+(* a token that is not <eof> is not the last one: consuming it moves on *)
+Lemma consume ts k : last_eof ts -> kis (cur ts) k = true -> bytes_eqb (bs k) (bs K_eof) = false -> ts = cur ts :: next ts /\ last_eof (next ts).
+Proof.
+  intros (pre & e & -> & E) H D. destruct pre as [|x pre].
+  - cbn [app cur] in H. rewrite (kd _ _ _ H D) in E. discriminate.
+  - cbn [app cur]. assert (N : (pre ++ [e])%list <> []) by (destruct pre; discriminate).
+    rewrite (next_cons _ _ N). split; [reflexivity|]. exists pre, e. auto.
+Qed.
+
+Lemma consume' ts k : last_eof ts -> kis (cur ts) k = true -> bytes_eqb (bs k) (bs K_eof) = false ->
+  exists c r, ts = c :: r /\ next (c :: r) = r /\ last_eof r.
+Proof.
+  intros L H D. destruct (consume ts k L H D) as [E L']. exists (cur ts), (next ts). split; [exact E|]. split; [|exact L'].
+  rewrite <- E. reflexivity.
+Qed.
+
+Lemma plain_tl c r : plain (c :: r) -> plain r.
+Proof. intros H. inversion H; auto. Qed.
+
+Lemma expect_sound k ts t r : expect k ts = Ok (t, r) -> bytes_eqb (bs k) (bs K_eof) = false -> plain ts -> last_eof ts ->
+  ts = t :: r /\ kis t k = true /\ plain r /\ last_eof r.
+Proof.
+  intros H D P L. apply expect_ok in H as (A & -> & ->). destruct (consume ts k L A D) as [E L']. split; [exact E|]. split; [exact A|].
+  split; [apply plain_next, P|exact L'].
+Qed.
+
+Lemma close_angle_sound ts g r : close_angle ts = Ok (g, r) -> plain ts -> last_eof ts ->
+  exists c, ts = c :: r /\ kis c ">" = true /\ plain r /\ last_eof r.
+Proof.
+  intros H P L. unfold close_angle in H. rewrite (plain_cur _ P) in H.
+  destruct (expect ">" ts) as [[t r0]| | |] eqn:E; cbn [bind] in H; inversion H; subst.
+  apply expect_sound in E as (E1 & E2 & E3 & E4); [|reflexivity|exact P|exact L]. exists t. auto.
+Qed.
+
+Lemma path_more_sound : forall n acc ts ids K, path_more n acc ts = Ok (ids, K) -> plain ts -> last_eof ts ->
+  exists more, ids = (acc ++ more)%list /\ SpPath (map id_name more) ts K /\ kis (cur K) "." = false /\ plain K /\ last_eof K.
+Proof.
+  induction n as [|n IH]; intros acc ts ids K H P L; [discriminate|]. cbn [path_more] in H.
+  destruct (kis (cur ts) ".") eqn:D.
+  - destruct (consume' ts "." L D eq_refl) as (d & r & -> & En & Lr). cbn [cur] in D. rewrite En in H.
+    destruct (parse_ident r) as [[i ts1]| | |] eqn:E; cbn [bind] in H; try discriminate.
+    apply parse_ident_ok in E as (KI & -> & ->).
+    destruct (consume' r K_ident Lr KI eq_refl) as (i & r2 & -> & En2 & Lr2). cbn [cur] in *. rewrite En2 in H.
+    destruct (IH _ _ _ _ H (plain_tl _ _ (plain_tl _ _ P)) Lr2) as (more & -> & SP & ND & PK & LK).
+    exists (mk_ident i :: more). rewrite <- app_assoc. split; [reflexivity|]. split; [|auto].
+    cbn [map]. apply (SpPCons d i); auto.
+  - inversion H; subst. exists []. rewrite app_nil_r. split; [reflexivity|]. split; [constructor|auto].
+Qed.
+
+Definition sound (pt : toks -> res (ty * toks)) : Prop :=
+  forall ts t K, pt ts = Ok (t, K) -> plain ts -> last_eof ts -> Sp (shape t) ts K /\ plain K /\ last_eof K.
+
+Lemma pfield_sound pt ts x K : sound pt -> pfield pt ts = Ok (x, K) -> plain ts -> last_eof ts ->
+  SpField (shape_field x) ts K /\ plain K /\ last_eof K.
+Proof.
+  intros S H P L. unfold pfield in H. destruct (kis (cur ts) K_ident && type_start (cur (next ts))) eqn:C.
+  - apply andb_true_iff in C as [C1 C2].
+    destruct (consume' ts K_ident L C1 eq_refl) as (c & r & -> & En & Lr). cbn [cur] in *. rewrite En in *.
+    destruct (pt r) as [[t r1]| | |] eqn:E; cbn [bind] in H; inversion H; subst.
+    destruct (S _ _ _ E (plain_tl _ _ P) Lr) as (SP & PK & LK). split; [|auto].
+    unfold shape_field. cbn [fst snd option_map]. apply (SpFNamed c); auto.
+  - destruct (pt ts) as [[t r]| | |] eqn:E; cbn [bind] in H; inversion H; subst.
+    destruct (S _ _ _ E P L) as (SP & PK & LK). split; [|auto]. unfold shape_field. cbn [fst snd option_map]. apply SpFAnon; auto.
+Qed.
+
+Lemma fields_more_sound pt : sound pt -> forall n acc ts fs K, fields_more pt n acc ts = Ok (fs, K) -> plain ts -> last_eof ts ->
+  exists more, fs = (acc ++ more)%list /\ SpMore (map shape_field more) ts K /\ kis (cur K) "," = false /\ plain K /\ last_eof K.
+Proof.
+  intros S. induction n as [|n IH]; intros acc ts fs K H P L; [discriminate|]. cbn [fields_more] in H.
+  destruct (kis (cur ts) ",") eqn:D.
+  - destruct (consume' ts "," L D eq_refl) as (c & r & -> & En & Lr). cbn [cur] in D. rewrite En in H.
+    destruct (pfield pt r) as [[fl ts1]| | |] eqn:E; cbn [bind] in H; try discriminate.
+    destruct (pfield_sound pt _ _ _ S E (plain_tl _ _ P) Lr) as (SF & P1 & L1).
+    destruct (IH _ _ _ _ H P1 L1) as (more & -> & SM & NC & PK & LK).
+    exists (fl :: more). rewrite <- app_assoc. split; [reflexivity|]. split; [|auto].
+    cbn [map]. apply (SpMCons c r ts1); auto.
+  - inversion H; subst. exists []. rewrite app_nil_r. split; [reflexivity|]. split; [constructor|auto].
+Qed.
+
+Lemma tstep_sound pt n : sound pt -> sound (tstep pt n).
+Proof.
+  intros S ts t K H P L. unfold tstep in H.
+  destruct (kis (cur ts) K_ident) eqn:KI.
+  { destruct (consume' ts K_ident L KI eq_refl) as (c & r & -> & En & Lr). cbn [cur] in *. rewrite En in H. pose proof (plain_tl _ _ P) as Pr.
+    destruct (simple_name c) as [nm|] eqn:SN.
+    - inversion H; subst. split; [|auto]. apply SpSimple; auto.
+    - destruct (path_more n [mk_ident c] r) as [[ids r1]| | |] eqn:E; cbn [bind] in H; inversion H; subst.
+      destruct (path_more_sound _ _ _ _ _ E Pr Lr) as (more & -> & SP & ND & PK & LK). split; [|auto].
+      cbn [shape app map]. apply (SpNamed c); auto. }
+  destruct (kis (cur ts) "ARRAY") eqn:KA.
+  { destruct (consume' ts "ARRAY" L KA eq_refl) as (c & r & -> & En & Lr). cbn [cur] in *. rewrite En in H. pose proof (plain_tl _ _ P) as Pr.
+    destruct (expect "<" r) as [[x ts1]| | |] eqn:E1; cbn [bind] in H; try discriminate.
+    destruct (pt ts1) as [[it ts2]| | |] eqn:E2; cbn [bind] in H; try discriminate.
+    destruct (close_angle ts2) as [[g ts3]| | |] eqn:E3; cbn [bind] in H; inversion H; subst.
+    apply expect_sound in E1 as (-> & A2 & A3 & A4); [|reflexivity|exact Pr|exact Lr].
+    destruct (S _ _ _ E2 A3 A4) as (SP & P2 & L2).
+    apply close_angle_sound in E3 as (gt & -> & B2 & B3 & B4); auto. split; [|auto].
+    cbn [shape]. apply (SpArray c x ts1 gt); auto. }
+  destruct (kis (cur ts) "STRUCT") eqn:KS; [|discriminate].
+  destruct (consume' ts "STRUCT" L KS eq_refl) as (c & r & -> & En & Lr). cbn [cur] in KI, KA, KS, H. rewrite En in H. pose proof (plain_tl _ _ P) as Pr.
+  destruct (kis (cur r) "<>") eqn:KE.
+  { inversion H; subst. destruct (consume' r "<>" Lr KE eq_refl) as (e & r2 & -> & En2 & Lr2). rewrite En2. split; [|split; [apply (plain_tl _ _ Pr)|exact Lr2]].
+    rewrite shape_struct. apply SpStruct0; auto. }
+  destruct (kis (cur r) "<") eqn:KL; cbn [negb] in H; [|discriminate].
+  destruct (consume' r "<" Lr KL eq_refl) as (lt & r2 & -> & En2 & Lr2). cbn [cur] in KE, KL. rewrite En2 in H. pose proof (plain_tl _ _ Pr) as P2.
+  destruct (kis (cur r2) ">" || kis (cur r2) ">>") eqn:KG.
+  - cbn [bind] in H. destruct (close_angle r2) as [[g ts4]| | |] eqn:E3; cbn [bind] in H; inversion H; subst.
+    apply close_angle_sound in E3 as (gt & -> & B2 & B3 & B4); auto. split; [|auto].
+    rewrite shape_struct. apply SpStruct1; auto.
+  - destruct (pfield pt r2) as [[f1 ts3]| | |] eqn:E2; cbn [bind] in H; try discriminate.
+    destruct (fields_more pt n [f1] ts3) as [[fs ts4]| | |] eqn:E3; cbn [bind] in H; try discriminate.
+    destruct (close_angle ts4) as [[g ts5]| | |] eqn:E4; cbn [bind] in H; inversion H; subst.
+    destruct (pfield_sound pt _ _ _ S E2 P2 Lr2) as (SF & P3 & L3).
+    destruct (fields_more_sound pt S _ _ _ _ _ E3 P3 L3) as (more & -> & SM & NC & P4 & L4).
+    apply close_angle_sound in E4 as (gt & -> & B2 & B3 & B4); auto. split; [|auto].
+    rewrite shape_struct. cbn [app map].
+    apply (SpStructN c lt r2 ts3 gt); auto.
+Qed.
+
+Theorem parsed_types_are_spelled : forall f, sound (PT f).
+Proof.
+  induction f as [|f IH]; intros ts t K H; [discriminate|]. cbn [PT] in H. revert H. apply tstep_sound. exact IH.
+Qed.
